@@ -357,7 +357,8 @@ def any_spec(draw, depth, sat, opts):
         return {"t": "any"}
     sub = spec_strategy(depth - 1, sat, **opts)
     alts = draw(st.lists(sub, min_size=1, max_size=3))
-    if draw(st.integers(0, 3)) == 0:
+    if not sat and draw(st.integers(0, 2)) == 0:
+        # (only where satisfiability is not promised: a variant of a satisfiable alternative need not be one)
         # look-alike alternatives: an alternative next to a single-step variant of itself (one element
         # replaced by `...` or by an accept-all schema, one flag toggled, one bound moved ...)
         from .props.c15 import _variant
